@@ -33,6 +33,13 @@ class SshdFamily(Family):
     def _c07(self):
         return C07Family()
 
+    def _framed(self, cs, rng):
+        """the same messages as the daemon receives them: framed '<pid> <msg>\\n' by rsyslog and handed over by the syslog
+        ingester, which must pass on the bytes sshd printed (judged as in C07: same effects as the direct call)"""
+        fr = [dict(c, framed=True) for c in self._c07()._prep(cs, rng)]
+        self.rule += "; plus %d messages framed '<pid> <msg>\\n' through SyslogIngester.Process (same event as the direct call)" % len(fr)
+        return fr
+
     def modes_for(self, c):
         if c.get("sessions"):
             return (["handoff"], ["handoff"])
@@ -125,17 +132,20 @@ class SshdFamily(Family):
             return (G.form_cases(rng, 3000 * n, forms=G.ACCEPTED, oks=("ok", "ok", "fail"), hands=("ready", "cancel"), pids=G.PIDS_OK) +
                     G.form_cases(rng, 600 * n, forms=G.ACCEPTED, oks=("ok", "fail"), hands=("ready", "cancel"), pids=G.PIDS_ODD) +
                     G.form_cases(rng, 1000 * n, oks=("ok", "fail"), hands=("ready", "cancel")) + G.malformed_cases(rng, 1500 * n) +
-                    G.accepted_with_suffix(rng, 600 * n) + G.splice_cases(rng, 600 * n) + G.long_cases(rng, 9 * n, oks=("ok", "fail"), hands=("ready", "cancel")))
+                    G.accepted_with_suffix(rng, 600 * n) + G.splice_cases(rng, 600 * n) + G.long_cases(rng, 9 * n, oks=("ok", "fail"), hands=("ready", "cancel")) +
+                    self._framed(G.form_cases(rng, 800 * n, forms=G.ACCEPTED, adversarial_every=2, pids=G.PIDS_OK), rng))
         if p == "C11":
             self.rule = "arbitrary bytes, keyword-prefixed junk, systematic mutations of valid messages, odd PID tokens; non-trivial = produced an event"
             cs = G.malformed_cases(rng, 8000 * n) + G.form_cases(rng, 1000 * n, pids=G.PIDS_ODD + G.PIDS_OK, adversarial_every=2) + G.accepted_with_suffix(rng, 600 * n)
             cs += [{"form": None, "fields": None, "pid": "1", "line": k + "A" * 20000, "ok": "ok", "h": "ready"} for k in G.KEYWORDS[:4]]
             cs += G.splice_cases(rng, 1200 * n) + G.long_cases(rng, 18 * n, oks=("ok", "fail"))
+            cs += self._framed(G.malformed_cases(rng, 800 * n), rng)
             return cs
         if p == "C19":
             self.rule = "all forms and malformed lines; counters read from a private registry around each line"
             return (G.form_cases(rng, 4000 * n, oks=("ok", "ok", "fail"), pids=G.PIDS_OK + G.PIDS_ODD[:4]) + G.malformed_cases(rng, 4000 * n) +
-                    G.accepted_with_suffix(rng, 600 * n) + G.splice_cases(rng, 600 * n))
+                    G.accepted_with_suffix(rng, 600 * n) + G.splice_cases(rng, 600 * n) +
+                    self._framed(G.form_cases(rng, 600 * n, adversarial_every=2, pids=G.PIDS_OK), rng))
         return []
 
     def extra_cases(self, rng, n):
